@@ -22,6 +22,8 @@ struct VMem
 	void* Allocate(size_t size) { if (g_alloc_fail) { g_alloc_fail = false; throw std::bad_alloc(); } return operator new(size); }
 	void Deallocate(void* ptr, size_t) noexcept { operator delete(ptr); }
 };
+static long g_copy_fail = 0;      // > 0: the copy constructor of a copy-only key throws when this countdown reaches 0
+struct CreatorFail : std::exception { const char* what() const noexcept override { return "CreatorFail"; } };
 struct HashFail : std::exception { const char* what() const noexcept override { return "HashFail"; } };
 
 static inline size_t c01_hash(uint32_t k)
@@ -69,7 +71,7 @@ template<size_t SZ, size_t AL> struct Elem<SZ, AL, 2> : ElemBase<SZ, AL, 2>
 {
 	Elem() { this->set(0, 0); }
 	Elem(uint32_t k, uint32_t t) { this->set(k, t); }
-	Elem(const Elem& e) { std::memcpy(this->raw, e.raw, SZ); }          // may throw as far as momo can tell; no move
+	Elem(const Elem& e) { if (g_copy_fail > 0 && --g_copy_fail == 0) throw CreatorFail(); std::memcpy(this->raw, e.raw, SZ); }   // throws on demand; no move
 	Elem& operator=(const Elem& e) { std::memcpy(this->raw, e.raw, SZ); return *this; }
 	~Elem() { std::memset(this->raw, 0xDD, SZ); }
 };
@@ -158,6 +160,19 @@ template<class K, class TR, class ST = momo::HashSetSettings> struct SetAd
 			if constexpr (std::is_same<K, uint32_t>::value) return c.InsertVar(e, e).inserted;
 			else return c.InsertVar(e, k, v).inserted; }
 	}
+	// an insertion whose item creator throws after writing the key bytes (variant 0), or whose key copy throws (variant 1, copy-only keys)
+	static bool insert_fail(C& c, uint32_t k, uint32_t v, unsigned variant, bool copyOnly)
+	{
+		K e = KeyOps<K>::mk(k, v);
+		if (variant == 1 && copyOnly)
+		{
+			struct Disarm { ~Disarm() { g_copy_fail = 0; } } disarm;
+			g_copy_fail = 1;
+			return c.Insert(static_cast<const K&>(e)).inserted;
+		}
+		auto creator = [&e] (K* newItem) { std::memcpy(static_cast<void*>(newItem), &e, sizeof(K)); throw CreatorFail(); };
+		return c.InsertCrt(e, creator).inserted;
+	}
 	static bool add(C& c, uint32_t k, uint32_t v)
 	{
 		K e = KeyOps<K>::mk(k, v);
@@ -207,6 +222,18 @@ template<class K, class TR, class V = uint32_t> struct MapAd
 		case 0: return c.Insert(std::move(e), std::move(val)).inserted;
 		case 1: return c.Insert(static_cast<const K&>(e), static_cast<const V&>(val)).inserted;
 		default: return c.InsertVar(static_cast<const K&>(e), val).inserted; }
+	}
+	static bool insert_fail(C& c, uint32_t k, uint32_t v, unsigned variant, bool copyOnly)
+	{
+		K e = KeyOps<K>::mk(k, tagof(k));
+		if (variant == 1 && copyOnly)
+		{
+			struct Disarm { ~Disarm() { g_copy_fail = 0; } } disarm;
+			g_copy_fail = 1;
+			return c.Insert(static_cast<const K&>(e), V(v)).inserted;
+		}
+		auto valueCreator = [] (V* /*newValue*/) { throw CreatorFail(); };
+		return c.InsertCrt(static_cast<const K&>(e), valueCreator).inserted;
 	}
 	static bool add(C& c, uint32_t k, uint32_t v)
 	{
@@ -347,6 +374,19 @@ template<class AD> struct Runner
 					if (got) tw[k] = v;
 					emit(got ? "1" : "0");
 					oracle(got == exp, "insert");
+				}
+				else if (tok == "IF" || tok == "IC")
+				{	// failed insertion: strong guarantee (the usual observations follow in the script)
+					is >> a >> b; uint32_t k = uint32_t(a);
+					bool present = tw.find(k) != tw.end();
+					static const bool copyOnly = !std::is_nothrow_move_constructible<typename AD::C::Key>::value
+						&& !std::is_arithmetic<typename AD::C::Key>::value;
+					bool threw = false, got = false;
+					try { got = AD::insert_fail(c, k, uint32_t(b), tok == "IC" ? 1 : 0, copyOnly); }
+					catch (const CreatorFail&) { threw = true; }
+					g_copy_fail = 0;
+					emit(threw ? "Xf" : (got ? "1" : "0"));
+					oracle(threw == !present && !got && c.GetCount() == tw.size(), "failed-insert");
 				}
 				else if (tok == "F")
 				{
@@ -514,7 +554,7 @@ static int c01_main(const Reg* regs, size_t nregs, void (*leaf)(const std::vecto
 	{
 		std::istringstream is(line);
 		std::string name; is >> name;
-		if (name == "cap" || name == "idx" || name == "sh" || name == "o8" || name == "kf")
+		if (name == "cap" || name == "idx" || name == "sh" || name == "o8" || name == "kf" || name == "n1")
 		{
 			std::vector<std::string> w; std::string x; while (is >> x) w.push_back(x);
 			if (leaf) leaf(w); else puts("?leaf");
